@@ -31,8 +31,13 @@ from .. import common as C
 from . import _an
 
 PROP = "C14"
-GEN_REGIONS = ["CoreKernels", "Attrs", "ConfigGlue"]
+GEN_REGIONS = ["CoreKernels", "Attrs", "ConfigGlue", "ResultQueries", "KernelHeap"]
 THEOREMS = {
+    # the lazy attribute cache PROTOCOL of SpectrumResult.__getattr__ as translated each run (region ResultQueries) is the model lazyGet/lazyRun:
+    # access-order independence and "cached values are returned unchanged" are theorems about the translated code
+    "SpecKitV.Props.ResultQueriesGen": ["gen_getattr_eq_model", "gen_getattr_run_eq_model", "gen_lazy_cache_sound", "gen_lazy_run_empty", "gen_lazy_order_independent", "gen_lazy_run_dynamic", "gen_getattr_formula_first"],
+    # no NumPy kernel writes into the record it is handed (so a later call on the same analyzer sees the same data)
+    "SpecKitV.Props.KernelHeapGen": ["np_kernels_write_no_caller_buffer", "cRun_sub_aRun", "np_kernels_abstract_clean"],
     "SpecKitV.Props.C14": ["Par.prange_any_schedule", "Par.prange_schedules_agree", "Par.prange_frame"],
     "SpecKitV.Lemmas.AnalyzerGlue": [
         "Model.planStep_fresh_ok", "Model.history_independent", "Model.history_independent_list", "Model.plan_cached_unchanged",
